@@ -32,11 +32,31 @@ func gid() int64 {
 	return 0
 }
 
-// eventAt deterministically generates event i of a run (both sides can compute it).
-func eventAt(seed int64, i int, ps int) []byte {
+// eventGen deterministically generates the event sequence of a run. Producer
+// and consumer each own an instance (same seed), so no state is shared. The
+// generator tracks the page layout and regularly emits events that end exactly
+// at (or within 3 bytes of) a page end.
+type eventGen struct {
+	seed int64
+	ps   int
+	i    int
+	lay  layout
+}
+
+func newEventGen(seed int64, ps int) *eventGen {
+	return &eventGen{seed: seed, ps: ps, lay: layout{payload: ps - szEventPageHeader}}
+}
+
+func (g *eventGen) Next() []byte {
+	b := eventAt(g.seed, g.i, g.ps, &g.lay)
+	g.i++
+	return b
+}
+
+func eventAt(seed int64, i int, ps int, lay *layout) []byte {
 	r := core.NewRand(seed, "c13-event", i)
 	var n int
-	switch r.Intn(5) {
+	switch r.Intn(6) {
 	case 0:
 		t := SizeTable(ps)
 		n = t[r.Intn(len(t))]
@@ -44,9 +64,20 @@ func eventAt(seed int64, i int, ps int) []byte {
 		n = 1 + r.Intn(40)
 	case 2:
 		n = 1 + r.Intn(3*ps)
+	case 3:
+		// end exactly at the page end (or 1..3 bytes before it), possibly some pages later
+		room := lay.payload - lay.used
+		if !lay.started {
+			room = lay.payload
+		}
+		n = room - szEventHeader - r.Intn(4) + r.Intn(3)*lay.payload
+		if n < 1 {
+			n = lay.payload - szEventHeader
+		}
 	default:
 		n = 1 + r.Intn(ps/2)
 	}
+	lay.add(n)
 	b := make([]byte, n)
 	x := uint64(seed)*0x9E3779B97F4A7C15 ^ uint64(i+1)*0xD1B54A32D192ED03
 	var hdr [8]byte
@@ -174,8 +205,9 @@ func (p *pcRun) producer(r *core.Rand, wg *sync.WaitGroup, evs map[string]int64)
 			return false
 		}
 	}
+	gen := newEventGen(p.seed, p.ps)
 	for i := 0; i < p.n; i++ {
-		ev := eventAt(p.seed, i, p.ps)
+		ev := gen.Next()
 		chunks := 1 + r.Intn(3)
 		off := 0
 		for off < len(ev) {
@@ -222,6 +254,8 @@ func (p *pcRun) consumer(r *core.Rand, wg *sync.WaitGroup, evs map[string]int64,
 		pt, _ := p.prodPoint.Load().(string)
 		evs["consumer-"+ev+"@producer-flush-"+pt]++
 	}
+	gen := newEventGen(p.seed, p.ps)
+	var want []byte
 	next := 0  // index of the next event expected
 	acked := 0 // events ACKed
 	idle := 0
@@ -248,7 +282,9 @@ func (p *pcRun) consumer(r *core.Rand, wg *sync.WaitGroup, evs map[string]int64,
 			if n == 0 {
 				break
 			}
-			want := eventAt(p.seed, next, p.ps)
+			if want == nil {
+				want = gen.Next()
+			}
 			if n != len(want) {
 				rd.Done()
 				p.violate("fifo-size", "fifo-size", "consumer expects event %d with %d bytes, reader reports %d bytes (produced so far %d)", next, len(want), n, atomic.LoadInt64(&p.produced))
@@ -279,6 +315,7 @@ func (p *pcRun) consumer(r *core.Rand, wg *sync.WaitGroup, evs map[string]int64,
 				return
 			}
 			next++
+			want = nil
 			readNow++
 			atomic.AddInt64(&p.progress[1], 1)
 		}
